@@ -27,13 +27,13 @@ func (a Any) completeConditionalExprAtPos(ctx context.Context, pos hcl.Pos) ([]l
 		}
 		if eType.TrueResult.Range().ContainsPos(pos) || eType.TrueResult.Range().End.Byte == pos.Byte {
 			cons := schema.AnyExpression{
-				OfType: cty.DynamicPseudoType,
+				OfType: a.cons.OfType,
 			}
 			return newExpression(a.pathCtx, eType.TrueResult, cons).CompletionAtPos(ctx, pos), true
 		}
 		if eType.FalseResult.Range().ContainsPos(pos) || eType.FalseResult.Range().End.Byte == pos.Byte {
 			cons := schema.AnyExpression{
-				OfType: cty.DynamicPseudoType,
+				OfType: a.cons.OfType,
 			}
 			return newExpression(a.pathCtx, eType.FalseResult, cons).CompletionAtPos(ctx, pos), true
 		}
